@@ -706,4 +706,50 @@ def no_class_state(repo: Repo) -> RuleRun:
 
 no_class_state.rule_id = "C06.NO-CLASS-STATE"
 
-RULES = [sections, side_tables, vertex_ownership, assemble_walk, patch_state, delete_skip, geometry_label, precision, user_state_survives, grading_form, geometry_redeclared, vertex_tolerance, grade_idempotent, live_lengths, axis_table, corner_patches, empty_patch, side_addressing, no_class_state]
+def geometry_role_free(repo: Repo, prop: str = PROP, rule: str = "C06.GEOMETRY-ROLE-FREE") -> RuleRun:
+    """'every geometry a built-in shape projects to is defined' - where the shape is NOW: Operation.mirror() swaps the bottom and
+    the top face of every operation, so a searchable surface whose centre / radius is looked up through ``<operation>.bottom_face``
+    (or top_face) describes another place once the shape was mirrored. The call closure of every ``geometry`` property is examined:
+    it must reach the defining points without going through a face ROLE."""
+    r = RuleRun(prop, rule, floor=1, what="the geometry (searchable surface) a shape declares is computed from remembered points, not looked up through bottom_face / top_face of its operations (which a mirror swaps)")
+    elem = repo.cls("base.element.ElementBase")
+    n = 0
+    for cls in sorted(repo.subclasses(elem), key=lambda c: c.qualname):
+        g = cls.methods.get("geometry")
+        if g is None or not g.is_property:
+            continue
+        rets = [x.value for x in ast.walk(g.node) if isinstance(x, ast.Return) and x.value is not None]
+        if all(isinstance(v, ast.Constant) and v.value is None for v in rets):
+            continue
+        n += 1
+        hits = []
+        seen, todo = set(), [g]
+        while todo:
+            f_ = todo.pop()
+            if f_ in seen or not f_.params:
+                continue
+            seen.add(f_)
+            sn = f_.params[0]
+            for x in ast.walk(f_.node):
+                if isinstance(x, ast.Attribute) and x.attr in ("bottom_face", "top_face"):
+                    hits.append((f_, x))
+                if isinstance(x, ast.Attribute) and isinstance(x.value, ast.Name) and x.value.id == sn:
+                    m_ = repo.find_method(cls, x.attr)
+                    if m_ is not None and m_.is_property:
+                        todo.append(m_)
+        r.check(
+            not hits,
+            g,
+            f"{cls.name}.geometry: defining points reached without a face role",
+            f"{cls.name}.geometry depends on '{ast.unparse(parent(hits[0][1]) if hits else g.node)[:70]}' (in {hits[0][0].qualname if hits else ''}): after mirror() the operation's bottom and top faces are swapped, "
+            "so the declared searchable surface has another centre / radius than the mirrored shape (e.g. centre (0.443, -1.514, 0.529), radius 0.713 for a unit hemisphere) and the projected faces snap to the wrong surface",
+            hits[0][1] if hits else g.node,
+            key=f"geometry:{cls.name}",
+        )
+    r.require(n >= 1, "no shape with a geometry of its own found (EighthSphere restructured?)")
+    return r
+
+
+geometry_role_free.rule_id = "C06.GEOMETRY-ROLE-FREE"
+
+RULES = [sections, side_tables, vertex_ownership, assemble_walk, patch_state, delete_skip, geometry_label, precision, user_state_survives, grading_form, geometry_redeclared, vertex_tolerance, grade_idempotent, live_lengths, axis_table, corner_patches, empty_patch, side_addressing, no_class_state, geometry_role_free]
